@@ -415,9 +415,11 @@ class SourceHandler:
                 ignored_packet=packet,
             )
         if packet.directive_type != DirectiveType.NAK_PDU:
-            if (
-                self.states.step == TransactionStep.WAITING_FOR_EOF_ACK
-                and packet.directive_type != DirectiveType.ACK_PDU
+            # A Finished PDU is also accepted while waiting for the EOF ACK: the receiver can only
+            # send it after it received the EOF PDU, so it implies the (lost) ACK.
+            if self.states.step == TransactionStep.WAITING_FOR_EOF_ACK and packet.directive_type not in (
+                DirectiveType.ACK_PDU,
+                DirectiveType.FINISHED_PDU,
             ):
                 raise PduIgnoredForSource(
                     reason=PduIgnoredForSourceReason.NOT_WAITING_FOR_ACK,
@@ -746,6 +748,14 @@ class SourceHandler:
                 f"{self.transmission_mode!r}"
             )
         if self.__handle_retransmission(packet_holder):
+            return
+        if (
+            packet_holder.pdu is not None
+            and packet_holder.pdu_directive_type == DirectiveType.FINISHED_PDU
+        ):
+            # The ACK of the EOF PDU was lost, but the receiver has the EOF PDU. The Finished PDU is
+            # handled by the next step in the same state machine call.
+            self.states.step = TransactionStep.WAITING_FOR_FINISHED
             return
         if packet_holder.pdu is None or (
             packet_holder.pdu_type == PduType.FILE_DIRECTIVE
